@@ -28,8 +28,7 @@ fn main() {
         usage();
     }
     // a panic of code under test is data: silence the default hook output
-    if std::env::var_os("CWE_CONF_DEBUG").is_none() {
-    if std::env::var("VERIF_PANIC_TRACE").is_err() {
+    if std::env::var_os("CWE_CONF_DEBUG").is_none() && std::env::var("VERIF_PANIC_TRACE").is_err() {
         std::panic::set_hook(Box::new(|_| {}));
     }
     let mut seed = 1u64;
